@@ -11,6 +11,9 @@ pub struct SimAlloc;
 pub static LIMIT: AtomicUsize = AtomicUsize::new(usize::MAX);
 pub static LAST_REFUSED: AtomicUsize = AtomicUsize::new(0);
 pub static REFUSALS: AtomicUsize = AtomicUsize::new(0);
+/// largest single request seen while a limit was armed (reset by the caller); used to select the plans that the
+/// Miri pass can execute (Miri has no way to survive an absurd allocation)
+pub static MAX_REQ: AtomicUsize = AtomicUsize::new(0);
 
 extern "C" {
     fn simio_run_guarded(f: extern "C" fn(*mut std::ffi::c_void), arg: *mut std::ffi::c_void) -> i32;
@@ -26,13 +29,21 @@ unsafe fn refuse(size: usize) -> *mut u8 {
 }
 unsafe impl GlobalAlloc for SimAlloc {
     unsafe fn alloc(&self, layout: Layout) -> *mut u8 {
-        if layout.size() >= LIMIT.load(Ordering::Relaxed) {
+        let lim = LIMIT.load(Ordering::Relaxed);
+        if lim != usize::MAX {
+            MAX_REQ.fetch_max(layout.size(), Ordering::Relaxed);
+        }
+        if layout.size() >= lim {
             return refuse(layout.size());
         }
         System.alloc(layout)
     }
     unsafe fn alloc_zeroed(&self, layout: Layout) -> *mut u8 {
-        if layout.size() >= LIMIT.load(Ordering::Relaxed) {
+        let lim = LIMIT.load(Ordering::Relaxed);
+        if lim != usize::MAX {
+            MAX_REQ.fetch_max(layout.size(), Ordering::Relaxed);
+        }
+        if layout.size() >= lim {
             return refuse(layout.size());
         }
         System.alloc_zeroed(layout)
@@ -41,7 +52,11 @@ unsafe impl GlobalAlloc for SimAlloc {
         System.dealloc(ptr, layout)
     }
     unsafe fn realloc(&self, ptr: *mut u8, layout: Layout, new_size: usize) -> *mut u8 {
-        if new_size >= LIMIT.load(Ordering::Relaxed) {
+        let lim = LIMIT.load(Ordering::Relaxed);
+        if lim != usize::MAX {
+            MAX_REQ.fetch_max(new_size, Ordering::Relaxed);
+        }
+        if new_size >= lim {
             return refuse(new_size);
         }
         System.realloc(ptr, layout, new_size)
@@ -55,6 +70,14 @@ extern "C" fn trampoline(arg: *mut std::ffi::c_void) {
 }
 /// Run `f` with allocation refusals armed. Returns Some(size) if an allocation of `size` bytes was refused
 /// and `f` was abandoned.
+#[cfg(miri)]
+pub fn with_alloc_limit(_limit: usize, mut f: impl FnMut()) -> Option<usize> {
+    // under Miri there is no C shim and no simulated allocator: the plans executed there were selected natively
+    // as never asking for more than a few MiB
+    f();
+    None
+}
+#[cfg(not(miri))]
 pub fn with_alloc_limit(limit: usize, mut f: impl FnMut()) -> Option<usize> {
     let mut dynf: &mut dyn FnMut() = &mut f;
     let old = LIMIT.swap(limit, Ordering::Relaxed);
